@@ -129,4 +129,45 @@ static inline void forward_to_layer(uint64_t x[12], const uint64_t in[12], int l
     }
     memcpy(x, st, sizeof st);
 }
+// ---- partial rounds -----------------------------------------------------------------------
+// one partial round r (0..21) forward, exactly as in perm()
+static inline void partial_round(uint64_t st[12], int r)
+{
+    st[0] = add(pow7(st[0]), K::C[5 * 12 + r].fe);
+    const Goldilocks::Element *S = &K::S[23 * r];
+    uint64_t s0 = 0;
+    for (int i = 0; i < 12; i++) s0 = add(s0, mul(st[i], S[i].fe));
+    for (int i = 1; i < 12; i++) st[i] = add(st[i], mul(st[0], S[11 + i].fe));
+    st[0] = s0;
+}
+// inverse of partial round r: out_i = st_i + t0*S[11+i] (i >= 1), out_0 = t0*S[0] + sum_{i>=1} st_i*S[i], t0 = st_0^7 + C
+//   => t0 = (out_0 - sum_{i>=1} out_i*S[i]) / (S[0] - sum_{i>=1} S[11+i]*S[i])
+static inline void partial_round_inverse(uint64_t st[12], int r)
+{
+    const Goldilocks::Element *S = &K::S[23 * r];
+    uint64_t num = st[0], den = can(S[0].fe);
+    for (int i = 1; i < 12; i++) { num = sub(num, mul(st[i], S[i].fe)); den = sub(den, mul(S[11 + i].fe, S[i].fe)); }
+    if (den == 0) { fprintf(stderr, "internal: partial round %d is not invertible this way\n", r); abort(); }
+    uint64_t t0 = mul(num, inv(den));
+    for (int i = 1; i < 12; i++) st[i] = sub(st[i], mul(t0, S[11 + i].fe));
+    st[0] = root7(sub(t0, K::C[5 * 12 + r].fe));
+}
+// given the state x that ENTERS partial round r (r = 0..21; r = 22: the state leaving the last partial round), return the permutation input
+static inline void backsolve_partial(uint64_t in[12], const uint64_t x[12], int r)
+{
+    static Mat Pinv = inverse_of_mvp(K::P);
+    uint64_t st[12], y[12];
+    for (int i = 0; i < 12; i++) st[i] = can(x[i]);
+    for (int q = r - 1; q >= 0; q--) partial_round_inverse(st, q);
+    for (int i = 0; i < 12; i++) { uint64_t acc = 0; for (int j = 0; j < 12; j++) acc = add(acc, mul(Pinv.a[i][j], st[j])); y[i] = acc; }
+    backsolve(in, y, 4);
+}
+static inline void forward_to_partial(uint64_t x[12], const uint64_t in[12], int r)
+{
+    uint64_t st[12];
+    forward_to_layer(st, in, 4);
+    mvp(st, K::P);
+    for (int q = 0; q < r; q++) partial_round(st, q);
+    memcpy(x, st, sizeof st);
+}
 } // namespace refp
